@@ -17,6 +17,8 @@ R4.15 hook registration descends into every field of a body model (no field is s
 R4.16 the argument serialiser decides `isinstance(x, Enum)` (-> value) before its str / int shortcut (generated enums are str / int subclasses)
 R4.17 a fixed local of the generated method that is bound before arguments are read is not a possible argument name        [finding: `url`]
 R4.18 a raw body (`data=<bytes>`) is always sent together with a `Content-Type` header carrying the declared media type
+R4.19 non-string header arguments are converted to text (in the emitted entry or when the transport merges per-request headers)
+R4.20 every path argument is percent-encoded (`quote(..., safe="")`) before it is interpolated into the URL
 R4.10 an object occurring twice in a body is serialised twice (visited set = recursion stack)   [= R16.2 bookkeeping instance]
 R4.11 the transport forwards json/data/files/params unchanged, also when they are empty/falsy      [= R17.3]
 R4.9  a supplied header parameter reaches the wire with the caller's value: in the bundled transport per-request
@@ -237,6 +239,8 @@ def run(repo: Repo, rep: Report, tier: str) -> None:
     rule_enum_before_primitive_shortcut(repo, rep, "R4.16")
     rule_locals_do_not_shadow_arguments(repo, rep, "R4.17")
     rule_raw_body_has_content_type(repo, rep, "R4.18")
+    rule_header_values_are_text(repo, rep, "R4.19")
+    rule_path_arguments_are_encoded(repo, rep, "R4.20")
     # R4.15: the unstructure hooks (wire-key renaming) are registered for the type of *every* field of a body model, private storage of the
     # generated map wrappers included                                                                                   [= R16.7]
     from rules import _converter as _cv415
@@ -760,3 +764,70 @@ def rule_raw_body_has_content_type(repo: Repo, rep, rule: str = "R4.18") -> None
     from sa.report import with_flatten_fallback
 
     with_flatten_fallback(rep, fn0, body)
+
+
+# ------------------------------------------------------------------------------------------------ R4.19 header arguments reach httpx as text
+def rule_header_values_are_text(repo: Repo, rep, rule: str = "R4.19") -> None:
+    """httpx accepts only str / bytes header values.  The generated methods build the headers dict as
+    `"X-Tenant-Id": DataclassSerializer.serialize(x_tenant_id)` and the serialiser returns int / float / bool / list values as they are, so
+    an `integer`, `number`, `boolean` or `array` header parameter raises TypeError inside httpx and no request is sent.  Either the emitted
+    entry converts the value to text, or the bundled transport does so when it merges the per-request headers."""
+    ua = repo.module(f"{GEN}.url_args_generator")
+    wh = ua.classes["EndpointUrlArgsGenerator"].methods.get("_write_header_params") if "EndpointUrlArgsGenerator" in ua.classes else None
+    if wh is None:
+        raise AnalysisError(f"{rule}: anchor vanished: EndpointUrlArgsGenerator._write_header_params")
+    entries = [t for t, _ in _emitted_lines(wh) if "DataclassSerializer.serialize(" in t or "serialize(" in t]
+    rep.require(bool(entries), f"{rule}: the header entry templates of _write_header_params were not found (anchor)")
+    converts_in_template = bool(entries) and all(("str(" in t.split(":", 1)[-1]) for t in entries)
+    ht = repo.module("core.http_transport")
+    ph = ht.classes["HttpxTransport"].methods.get("_prepare_headers") if "HttpxTransport" in ht.classes else None
+    if ph is None:
+        raise AnalysisError(f"{rule}: anchor vanished: HttpxTransport._prepare_headers")
+
+    def is_text_helper(name: str) -> bool:
+        f = ht.functions.get(name)
+        if f is None:
+            return False
+        return any(isinstance(c, ast.Call) and dotted(c.func) == "isinstance" and len(c.args) == 2 and "str" in norm(c.args[1]) for c in ast.walk(f.node)) and any(
+            isinstance(c, ast.Call) and dotted(c.func) == "str" for c in ast.walk(f.node))
+
+    converts_in_transport = False
+    for c in calls_in(ph.node):
+        if isinstance(c.func, ast.Attribute) and c.func.attr == "update" and c.args and "headers" in norm(c.args[0]):
+            a = c.args[0]
+            if isinstance(a, ast.DictComp) and isinstance(a.value, ast.Call) and ((isinstance(a.value.func, ast.Name) and (a.value.func.id == "str" or is_text_helper(a.value.func.id)))):
+                converts_in_transport = True
+    sub = f"{ua.relpath}:_write_header_params / {ht.relpath}:_prepare_headers header values are text"
+    if converts_in_template or converts_in_transport:
+        rep.ok(rule, sub, "non-string header arguments are converted to text " + ("in the emitted entry" if converts_in_template else "when the transport merges the per-request headers"), wh.loc())
+    else:
+        rep.violation(rule, sub, f"{wh.fq}|header-value-not-text",
+                      f"`{entries[0].strip()[:70]}` passes the serialised value as it is and the transport merges it unchanged: for an integer / boolean / array header parameter "
+                      "httpx raises `TypeError: Header value must be str or bytes` and the request is never sent", wh.loc())
+
+
+# ------------------------------------------------------------------------------------------------ R4.20 a path argument stays one path segment
+def rule_path_arguments_are_encoded(repo: Repo, rep, rule: str = "R4.20") -> None:
+    """The URL is an f-string over the path template; httpx parses the finished string as a URL.  A path argument that is interpolated as it
+    is turns its own `/`, `?`, `#`, `%` into URL syntax (`tag="c#"` requests `/tags/c`, `"ci/cd"` becomes two segments, `"a?limit=1000"`
+    injects a query).  Every path argument must be percent-encoded with no safe characters before it reaches the f-string: in the line that
+    re-binds the argument (`x = quote(str(...), safe="")`) or in the URL builder."""
+    ua = repo.func(f"{GEN}.url_args_generator:EndpointUrlArgsGenerator.generate_url_and_args")
+    from sa.flatten import flatten
+
+    fn = flatten(ua)
+    lines = [t for t, _ in _emitted_lines(fn)]
+    rebinding = [t for t in lines if re.match(r"^\s*\x00 = ", t) or re.match(r"^\s*\{?\w*\}? = .*serialize\(", t)]
+    bu = ua.module.classes["EndpointUrlArgsGenerator"].methods.get("_build_url_with_path_vars")
+    in_builder = bu is not None and "quote(" in full(bu.node)
+    encoded = [t for t in lines if "quote(" in t and re.search(r"safe\s*=\s*(\"\"|'')", t)]
+    sub = f"{ua.module.relpath}:generate_url_and_args path arguments are percent-encoded"
+    # the line that re-binds an argument to its serialised form: `<arg> = ...serialize(<arg>)...` (target and argument are the same hole)
+    path_lines = [t for t in lines if re.match(r"^\s*\x00 = .*serialize\(\x00\)", t)]
+    rep.require(bool(path_lines) or in_builder, f"{rule}: the line that serialises a path argument before URL construction was not found (anchor)")
+    if in_builder or (path_lines and all(t in encoded for t in path_lines)):
+        rep.ok(rule, sub, "`quote(str(...), safe=\"\")` is applied to every path argument before the URL f-string", ua.loc())
+    elif path_lines:
+        rep.violation(rule, sub, f"{ua.fq}|path-argument-not-encoded",
+                      f"`{path_lines[0].strip()[:70]}` interpolates the argument as it is: a value containing `/`, `?`, `#` or `%` changes the path, adds a query or cuts the URL "
+                      "(`tag='c#'` requests `/tags/c`)", ua.loc())
